@@ -145,6 +145,26 @@ func (c *chunkReader) Read(p []byte) (int, error) {
 	return k, nil
 }
 
+// splitReader delivers b[:cut], then the rest.
+type splitReader struct {
+	b   []byte
+	cut int
+	pos int
+}
+
+func (s *splitReader) Read(p []byte) (int, error) {
+	if s.pos >= len(s.b) {
+		return 0, io.EOF
+	}
+	end := len(s.b)
+	if s.pos < s.cut {
+		end = s.cut
+	}
+	n := copy(p, s.b[s.pos:end])
+	s.pos += n
+	return n, nil
+}
+
 // longLiterals: string literals longer than the decoder's buffers, with an escape or ill-formed byte
 // at the start / middle / end, decoded through streaming readers.
 func longLiterals(r *evid.Run) {
@@ -525,6 +545,23 @@ func (c *checker) literal(lit []byte) (msg string) {
 		} else if ok {
 			return fmt.Sprintf("ReadToken rejected %q (AllowInvalidUTF8=%v): %v", lit, allow, err)
 		}
+		// D2' the same literal delivered in two reads, for every split point (escapes resumed across a refill)
+		if ok && len(lit) <= 20 && bytes.IndexByte(lit, '\\') >= 0 {
+			for cut := 1; cut < len(lit); cut++ {
+				sr := &splitReader{b: lit, cut: cut}
+				c.dec.Reset(sr, opts...)
+				tok, err := c.dec.ReadToken()
+				if err != nil || tok.Kind() != '"' || tok.String() != want {
+					return fmt.Sprintf("ReadToken over a reader split after byte %d: (%q, %v), want %q (AllowInvalidUTF8=%v)", cut, tok.String(), err, want, allow)
+				}
+				sr = &splitReader{b: lit, cut: cut}
+				c.dec.Reset(sr, opts...)
+				val, err := c.dec.ReadValue()
+				if err != nil || !bytes.Equal(val, lit) {
+					return fmt.Sprintf("ReadValue over a reader split after byte %d: (%q, %v), want the literal (AllowInvalidUTF8=%v)", cut, val, err, allow)
+				}
+			}
+		}
 		// D3 Unmarshal into string, D5 into any, D4 as map key
 		var s string
 		err = jsonv2.Unmarshal(lit, &s, opts[0])
@@ -661,6 +698,24 @@ func Run(r *evid.Run) {
 		}
 	})
 	r.Bound("code points: %d scalar values, alone and embedded", len(cps))
+	// struct member names (pre-quoted when the struct type is analysed) holding the characters the escape options speak about
+	{
+		c := newChecker()
+		var n int64
+		for _, cp := range []rune{'<', '>', '&', 0x2028, 0x2029, 0x2027, 0x202a, 0x7f, 0xe9, 0xfffd, 0x10000, '/', 0x3c0} {
+			for _, s := range []string{string(cp), "a" + string(cp) + "b", string(cp) + string(cp), "\u2028" + string(cp), string(cp) + "<"} {
+				c.cur = Case{Kind: "gostring", Bytes: []byte(s), Fields: true}
+				n++
+				if msg := c.goString(s, true); msg != "" {
+					report(r, c.cur, msg)
+				}
+			}
+		}
+		r.Evaluations.Add(n)
+		r.Nontrivial.Add(n)
+		r.Outcomes(c.paths)
+		r.Bound("struct member names: 13 critical code points (HTML characters, U+2028/U+2029 and their neighbours, others) alone, embedded, doubled and combined, through every encode path incl. the struct-field-name path x 4 escape sets")
+	}
 	r.Sample(Case{Kind: "gostring", Text: "a\u2028<"})
 	// literals
 	lens := views.ForTier(r.Tier)
@@ -681,5 +736,30 @@ func Run(r *evid.Run) {
 		}
 	})
 	r.Sample(Case{Kind: "literal", Text: `"\ud800\udc00"`})
+	// complete \u escape sequences (too long for the S view): every combination of two 4-digit escapes from a
+	// menu of surrogate halves / boundary code units in lower, upper and mixed case hex, alone, adjacent, and
+	// separated or followed by an ordinary character
+	units := []string{"d800", "D800", "dbff", "DBFF", "d83d", "dc00", "DC00", "dfff", "DFFF", "de00", "DE00", "dE0a", "Dc0F", "d7ff", "e000", "E000", "0041", "0000", "ffff", "FFFF", "2028", "003c", "003C", "000c", "000C", "00e9"}
+	var lits [][]byte
+	for _, a := range units {
+		lits = append(lits, []byte(`"\u`+a+`"`), []byte(`"x\u`+a+`y"`))
+		for _, b := range units {
+			lits = append(lits, []byte(`"\u`+a+`\u`+b+`"`), []byte(`"\u`+a+`z\u`+b+`"`), []byte(`"\u`+a+`\u`+b+`z"`), []byte(`"\u`+a+`\\u`+b+`"`))
+		}
+	}
+	enum.Parallel(r, len(lits), func(w *enum.Worker) func(int) {
+		c := newChecker()
+		w.Describe = func() any { return c.cur }
+		w.Done = func() { r.Outcomes(c.paths) }
+		return func(u int) {
+			c.cur = Case{Kind: "literal", Bytes: lits[u]}
+			r.Evaluations.Add(1)
+			r.Nontrivial.Add(1)
+			if msg := c.literal(lits[u]); msg != "" {
+				report(r, c.cur, msg)
+			}
+		}
+	})
+	r.Bound("escape sequences: %d literals built from all ordered pairs of %d four-digit \\u escapes (surrogate halves and boundary code units in lower / upper / mixed case), alone, adjacent, separated and followed by a character; each also delivered in two reads split at every byte", len(lits), len(units))
 	longLiterals(r)
 }
